@@ -1,3 +1,12 @@
+(* Tie_cts_closures_cbc1.v -- semantic tie of the closure bodies of cts/src/*_cs*.rs (the code that runs inside
+   encrypt_with_backend / decrypt_with_backend) to the byte-granular model of coq/Cts.v.
+
+   The buffer is an InOutBuf<u8> (MirSem.VBuf al in out); `into_chunks` splits it into the whole blocks
+   (a view PBlocks, read as cells exactly like Cts.mcells) and the tail (a view PBytes).  The helpers called
+   (cbc_enc, xor) are contracts here; they are tied to the source in Tie_cts_helpers.v / Tie_cts_cbcdec.v.
+   Every bound check, `usize` subtraction and copy_from_slice length check of the body is discharged, so the
+   theorem also says the body does not panic on any message of at least one block. *)
+
 (* Tie_cts_closures_cbc1dec.v -- semantic tie of the CbcCs1 decryption closure body (cts/src/cbc_cs1.rs) to Cts.cbc_cs1_dec.
    Proved in stages: cbc_cs1_dec_head (statements up to the bulk decryption over all whole blocks but the last, through
    `blocks.split_at(mid).0`), cbc_cs1_dec_tail (the un-stealing step on the last bs + tail bytes), composed with
@@ -401,3 +410,248 @@ Section CbcCs1Dec.
         * rewrite xorb_length, X1, X2. lia.
   Qed.
 End CbcCs1Dec.
+
+(* ==== the encryption closure (the first closure tie written; its own small library: local contracts, env) ==== *)
+Lemma skipn_repeat_l {A} (x : A) k n : skipn k (repeat x n) = repeat x (n - k).
+Proof. revert n; induction k as [|k IH]; intros [|n]; cbn [skipn repeat Nat.sub]; auto. Qed.
+
+Lemma msplice_length lo len (s b : list N) : lo + len <= length b -> length s = len -> length (MirSem.splice lo len s b) = length b.
+Proof. intros H1 H2. unfold MirSem.splice. rewrite !app_length, firstn_length, skipn_length. lia. Qed.
+
+Section Cs1.
+  Variable C : cipher.
+  Let bs := c_bs C.
+  Hypothesis bs_pos : 0 < bs.
+  Hypothesis E_len : forall x, length x = bs -> length (c_E C x) = bs.
+  Definition ce_iv iv cs := fst (cts_cbc_enc C iv cs).
+  Definition ce_out iv cs := outs_of (snd (cts_cbc_enc C iv cs)).
+  Definition ce_cs iv cs := snd (cts_cbc_enc C iv cs).
+  Definition cbc_enc_sem (args : list val) : option (val * list val) :=
+    match args with
+    | [c; VBlk iv; VCells cs] => Some (VUnit, [c; VBlk (ce_iv iv cs); VCells (ce_cs iv cs)])
+    | _ => None
+    end.
+  Let X := bctx C [("cbc_enc", FSem cbc_enc_sem); ("xor", FSem xor_sem)]
+                  [("into_chunks::BS", VNat bs); ("Block::<B>::default()", VBlk (zeros bs)); ("B::BlockSize::USIZE", VNat bs)].
+  Definition cenv (iv : block) (al : bool) (i o : list N) : env :=
+    [("cipher", VCipher true false); ("self", VStruct "Closure" [("iv", VBlk iv); ("buf", VBuf al i o)])].
+
+  Lemma all_len_rd_in_mkcell al (a b : list (list N)) : all_len bs a -> all_len bs b -> length a = length b ->
+    all_len bs (map rd_in (map2 (mkcell al) a b)).
+  Proof.
+    intros Ha. revert b. induction Ha as [|x a Hx _ IH]; intros [|y b] Hb Hl; cbn [map2 map]; try constructor; try discriminate.
+    - inversion Hb; subst. unfold rd_in; cbn. destruct al; auto.
+    - inversion Hb; subst. apply IH; auto.
+  Qed.
+
+  (* the buffer as whole blocks plus a tail, on both sides *)
+  Lemma tie_cts__cbc_cs1__BlockCipherEncClosure__Closure__call iv al ib it ob ot :
+    length iv = bs -> all_len bs ib -> all_len bs ob -> length ib = length ob -> 1 <= length ib ->
+    length it = length ot -> length ot < bs ->
+    exists e' o', run_body X (cenv iv al (concat ib ++ it) (concat ob ++ ot)) cts__cbc_cs1__BlockCipherEncClosure__Closure__call = Some (e', VUnit)
+      /\ lookup "buf" e' = Some (VBuf al (concat ib ++ it) o')
+      /\ cbc_cs1_enc C iv (mkmem al (concat ib ++ it) (concat ob ++ ot)) = Ok (mkmem al (concat ib ++ it) o').
+  Proof.
+    intros Hiv Hib Hob Hnb Hnb1 Htl Htl2. unfold run_body. unfold block in *.
+    remember (length ib) as nb eqn:Enb. remember (length ot) as tl eqn:Etl.
+    assert (Hci : length (concat ib) = nb * bs) by (rewrite (all_len_concat_length bs) by auto; lia).
+    assert (Hco : length (concat ob) = nb * bs) by (rewrite (all_len_concat_length bs) by auto; lia).
+    remember (concat ib ++ it) as i eqn:Ei. remember (concat ob ++ ot) as o eqn:Eo.
+    assert (HLi : length i = nb * bs + tl) by (subst i; rewrite app_length; lia).
+    assert (HLo : length o = nb * bs + tl) by (subst o; rewrite app_length; lia).
+    assert (Hdiv : ndiv (length o) bs = nb).
+    { unfold ndiv. rewrite HLo. symmetry. apply (Nat.div_unique _ _ _ tl); lia. }
+    assert (F0 : in_range 0 (c_bs C) = true) by (apply in_range_true; fold bs; lia).
+    run_prefix 2. fold bs. rewrite Hdiv. replace (length o - nb * bs) with tl by lia.
+    (* the bulk CBC part *)
+    assert (Ecells : cells_of bs al (firstn (nb * bs) (skipn 0 i)) (firstn (nb * bs) (skipn 0 o)) = map2 (mkcell al) ib ob).
+    { cbn [skipn]. subst i o. unfold cells_of. rewrite !firstn_app_exact by lia. rewrite !(chunks_blocks_only C) by auto. reflexivity. }
+    pose (cells0 := cells_of bs al (firstn (nb * bs) (skipn 0 i)) (firstn (nb * bs) (skipn 0 o))).
+    pose (Cs := cbc_enc_spec (c_E C) iv (map rd_in (map2 (mkcell al) ib ob))).
+    assert (Hcl : length (map2 (mkcell al) ib ob) = nb) by (rewrite map2_length; unfold block in *; lia).
+    assert (HCl : length Cs = nb) by (unfold Cs; rewrite (cbc_enc_spec_length (c_E C)), map_length; exact Hcl).
+    assert (HCa : all_len bs Cs).
+    { unfold Cs. apply (cbc_enc_spec_all_len bs (c_E C)); auto. apply all_len_rd_in_mkcell; auto; congruence. }
+    assert (Ecbc : cts_cbc_enc C iv cells0 = (cbc_chain iv Cs, map2 wr_out (map2 (mkcell al) ib ob) Cs)).
+    { unfold cells0. rewrite Ecells. apply cts_cbc_enc_eq. }
+    assert (Eouts0 : outs_of (map2 wr_out (map2 (mkcell al) ib ob) Cs) = concat Cs).
+    { unfold outs_of. rewrite map_cout_wr by (rewrite Hcl, HCl; reflexivity). reflexivity. }
+    assert (Eouts : outs_of (ce_cs iv cells0) = concat Cs).
+    { unfold ce_cs. rewrite Ecbc. cbn [snd]. exact Eouts0. }
+    assert (Eiv1 : ce_iv iv cells0 = last Cs iv).
+    { unfold ce_iv. rewrite Ecbc. reflexivity. }
+    assert (Hol : length (concat Cs) = nb * bs).
+    { rewrite (all_len_concat_length bs) by auto. unfold block in *. nia. }
+    assert (Hiv1 : length (last Cs iv) = bs).
+    { apply all_len_last; [auto | intros E0; rewrite E0 in HCl; cbn in HCl; lia]. }
+    assert (Eo1 : MirSem.splice 0 (nb * bs) (concat Cs) o = concat Cs ++ ot).
+    { subst o. apply seg_write_head. lia. }
+    assert (F1 : fits 0 (nb * bs) (length o) = true) by (apply fits_true; lia).
+    assert (F2 : fits 0 (nb * bs) (length i) = true) by (apply fits_true; lia).
+    assert (F3 : len_eq (length (concat Cs)) (nb * bs) = true) by (apply len_eq_true; exact Hol).
+    unfold bs in F1, F2, F3.
+    assert (Emain : mrun C (cts_cbc_enc C) iv (mkmem al i o) 0 nb = Ok (last Cs iv, mkmem al i (concat Cs ++ ot))).
+    { unfold mrun. change (mcells C (mkmem al i o) 0 nb) with cells0. rewrite Ecbc. unfold mput_out. cbn [m_out m_al m_in].
+      rewrite Eouts0, Hol, HLo. replace (Nat.leb (0 + nb * bs) (nb * bs + tl)) with true by (symmetry; apply Nat.leb_le; lia).
+      cbn [obind]. unfold cbc_chain. do 3 f_equal. subst o. unfold splice. cbn [firstn app Nat.add]. rewrite Hol, <- Hco, skipn_app_exact by reflexivity. reflexivity. }
+    assert (Emodel : cbc_cs1_enc C iv (mkmem al i o) =
+       if Nat.eqb tl 0 then Ok (mkmem al i (concat Cs ++ ot)) else
+       do tin <- mget_in (mkmem al i (concat Cs ++ ot)) (nb * bs) tl;
+       do pos <- usub (length o) bs;
+       mput_out (mkmem al i (concat Cs ++ ot)) pos (c_E C (xorb (tin ++ zeros (bs - tl)) (last Cs iv)))).
+    { unfold cbc_cs1_enc. fold bs. unfold mlen. cbn [m_out].
+      assert (Hd : length o / bs = nb) by (rewrite HLo; symmetry; apply (Nat.div_unique _ _ _ tl); lia).
+      assert (Hm : length o mod bs = tl) by (rewrite HLo; symmetry; apply (Nat.mod_unique _ _ nb); lia).
+      rewrite Hd, Hm. replace (Nat.ltb (length o) bs) with false by (symmetry; apply Nat.ltb_ge; nia).
+      rewrite Emain. cbn [obind]. reflexivity. }
+    clearbody Cs.
+    Opaque ce_iv ce_cs cells_of outs_of.
+    run_prefix 1.
+    match goal with |- context [outs_of (ce_cs ?a ?b)] => replace (outs_of (ce_cs a b)) with (concat Cs) by (symmetry; exact Eouts) end.
+    match goal with |- context [ce_iv ?a ?b] => replace (ce_iv a b) with (last Cs iv) by (symmetry; exact Eiv1) end.
+    match goal with |- context [len_eq ?a ?b] => replace (len_eq a b) with true by (symmetry; exact F3) end. cbv beta iota.
+    match goal with |- context [MirSem.splice ?a ?b ?c ?d] => replace (MirSem.splice a b c d) with (concat Cs ++ ot) by (symmetry; exact Eo1) end.
+    destruct (Nat.eq_dec tl 0) as [Htl0|Htl0].
+    - (* whole blocks only *)
+      assert (G1 : fits (nb * bs) tl (length (concat Cs ++ ot)) = true) by (apply fits_true; rewrite app_length; lia).
+      assert (G2 : fits (nb * bs) tl (length i) = true) by (apply fits_true; lia).
+      unfold bs in G1, G2.
+      run_prefix 1.
+      eexists _, _. split; [reflexivity|]. split; [reflexivity|]. rewrite Emodel.
+      replace (Nat.eqb tl 0) with true by (symmetry; apply Nat.eqb_eq; exact Htl0). reflexivity.
+    - assert (G1 : fits (nb * bs) tl (length (concat Cs ++ ot)) = true) by (apply fits_true; rewrite app_length; lia).
+      assert (G2 : fits (nb * bs) tl (length i) = true) by (apply fits_true; lia).
+      assert (G3 : len_eq (length (firstn tl (skipn (nb * bs) (concat Cs ++ ot)))) 0 = false).
+      { apply len_eq_false. rewrite <- Hol, skipn_app_exact by reflexivity. rewrite firstn_all2 by (lia). lia. }
+      unfold bs in G1, G2, G3.
+      run_prefix 1.
+      assert (G4 : fits 0 tl bs = true) by (apply fits_true; lia).
+      assert (G5 : fits 0 tl (length (zeros bs)) = true) by (apply fits_true; rewrite zeros_length; lia).
+      assert (ET : firstn tl (skipn (nb * bs) (concat Cs ++ ot)) = ot).
+      { rewrite <- Hol, skipn_app_exact by reflexivity. apply firstn_all2. lia. }
+      assert (EI : firstn tl (skipn (nb * bs) i) = it).
+      { subst i. rewrite <- Hci, skipn_app_exact by reflexivity. apply firstn_all2. lia. }
+      assert (G6 : le_ok (length (firstn tl (skipn (nb * bs) (concat Cs ++ ot)))) (length (zeros bs)) = true).
+      { apply le_ok_true. rewrite ET, zeros_length. lia. }
+      assert (G7 : fits 0 (length (firstn tl (skipn (nb * bs) (concat Cs ++ ot))) - 0) (length (zeros bs)) = true).
+      { apply fits_true. rewrite ET, zeros_length. lia. }
+      assert (G8 : len_eq (length (if al then firstn tl (skipn (nb * bs) (concat Cs ++ ot)) else firstn tl (skipn (nb * bs) i)))
+                          (length (firstn tl (skipn (nb * bs) (concat Cs ++ ot))) - 0) = true).
+      { apply len_eq_true. rewrite ET, EI. destruct al; lia. }
+      unfold bs in G4, G5, G6, G7, G8.
+      run_prefix 2. unfold bs in ET, EI. rewrite ET, EI. fold bs.
+      assert (Eblk : MirSem.splice 0 (length ot - 0) (if al then ot else it) (zeros bs) = (if al then ot else it) ++ zeros (bs - tl)).
+      { unfold MirSem.splice. cbn [firstn app Nat.add]. f_equal. unfold zeros. rewrite skipn_repeat_l. f_equal. lia. }
+      rewrite Eblk.
+      remember ((if al then ot else it) ++ zeros (bs - tl)) as blk eqn:Eb.
+      assert (Hblk : length blk = bs) by (subst blk; rewrite app_length, zeros_length; destruct al; lia).
+      unfold bs. run_prefix 2.
+      match goal with |- context [VBlk (c_E C ?x)] => remember (c_E C x) as cb eqn:Ecb end.
+      assert (Hcb : length cb = bs) by (subst cb; apply E_len; rewrite xor_into_length; exact Hblk).
+      assert (J1 : le_ok bs (length (concat Cs ++ ot)) = true) by (apply le_ok_true; rewrite app_length; nia).
+      unfold bs in J1.
+      run_prefix 1.
+      assert (HL1 : length (concat Cs ++ ot) = nb * bs + tl) by (rewrite app_length; lia).
+      assert (J2 : fits (length (concat Cs ++ ot) - bs) (length (concat Cs ++ ot) - (length (concat Cs ++ ot) - bs)) (length (concat Cs ++ ot)) = true)
+        by (apply fits_true; nia).
+      assert (J3 : len_eq (length cb) (length (concat Cs ++ ot) - (length (concat Cs ++ ot) - bs)) = true)
+        by (apply len_eq_true; nia).
+      assert (J4 : len_eq (length (MirSem.splice (length (concat Cs ++ ot) - bs) (length (concat Cs ++ ot) - (length (concat Cs ++ ot) - bs))
+                     cb (concat Cs ++ ot))) (length (concat Cs ++ ot)) = true).
+      { apply len_eq_true. apply msplice_length; nia. }
+      unfold bs in J2, J3, J4.
+      run_rest.
+      eexists _, _. split; [reflexivity|]. split; [reflexivity|]. rewrite Emodel.
+      replace (Nat.eqb tl 0) with false by (symmetry; apply Nat.eqb_neq; lia).
+      assert (Eg : mget_in (mkmem al i (concat Cs ++ ot)) (nb * bs) tl = Ok (if al then ot else it)).
+      { unfold mget_in, msrc, slice. cbn [m_al m_in m_out].
+        replace (nb * bs + tl - nb * bs) with tl by lia.
+        destruct al.
+        - rewrite HL1. replace (Nat.leb (nb * bs) (nb * bs + tl)) with true by (symmetry; apply Nat.leb_le; lia).
+          rewrite Nat.leb_refl. cbn [andb]. fold bs in ET. rewrite ET. reflexivity.
+        - rewrite HLi. replace (Nat.leb (nb * bs) (nb * bs + tl)) with true by (symmetry; apply Nat.leb_le; lia).
+          rewrite Nat.leb_refl. cbn [andb]. fold bs in EI. rewrite EI. reflexivity. }
+      rewrite Eg. cbn [obind]. unfold usub. replace (Nat.leb bs (length o)) with true by (symmetry; apply Nat.leb_le; nia).
+      cbn [obind]. unfold mput_out. cbn [m_al m_in m_out].
+      rewrite <- Eb, <- (xor_into_eq blk (last Cs iv)) by lia. unfold block in *. rewrite <- Ecb, Hcb.
+      replace (Nat.leb (length o - bs + bs) (length (concat Cs ++ ot))) with true by (symmetry; apply Nat.leb_le; nia).
+      do 2 f_equal. unfold splice, MirSem.splice. fold bs. rewrite Hcb, HL1, HLo.
+      replace (nb * bs + tl - (nb * bs + tl - bs)) with bs by nia. reflexivity.
+  Qed.
+
+  (* ---- C05 over the translated source: the bytes the CbcCs1 encryption closure of cts/src/cbc_cs1.rs leaves in the
+     buffer are the NIST SP 800-38A Addendum CBC-CS1 ciphertext of the message, buffer-to-buffer (any prior contents of
+     the output buffer) and in place -- the tie theorem above composed with Cts_cs_proofs.cbc_cs1_enc_ok (= Props/C05). *)
+  Theorem C05_cbc_cs1_enc_source_b2b iv (blocks : list (list N)) (tail : list N) (ob : list (list N)) (ot : list N) :
+    cipher_wf C -> length iv = bs -> all_len bs blocks -> 1 <= length blocks -> length tail < bs ->
+    all_len bs ob -> length ob = length blocks -> length ot = length tail ->
+    exists e', run_body X (cenv iv false (concat blocks ++ tail) (concat ob ++ ot)) cts__cbc_cs1__BlockCipherEncClosure__Closure__call = Some (e', VUnit)
+      /\ lookup "buf" e' = Some (VBuf false (concat blocks ++ tail) (cbc_cs1_spec bs (c_E C) iv blocks tail)).
+  Proof.
+    intros Cwf Hiv Hb Hn Ht Hob Hobl Hotl.
+    destruct (tie_cts__cbc_cs1__BlockCipherEncClosure__Closure__call iv false blocks tail ob ot) as (e' & o' & Hrun & Hbuf & Hmod); auto; try lia.
+    assert (Hm : msg_mem C (mkmem false (concat blocks ++ tail) (concat ob ++ ot)) blocks tail).
+    { constructor; auto.
+      - split; [|discriminate]. cbn [m_in m_out]. rewrite !app_length, !(all_len_concat_length bs) by auto. lia. }
+    destruct (cbc_cs1_enc_ok C Cwf iv _ blocks tail Hiv Hm) as (m' & E1 & E2).
+    fold bs in E2. rewrite Hmod in E1. injection E1 as <-. cbn [m_out] in E2. subst o'.
+    exists e'. split; [exact Hrun | exact Hbuf].
+  Qed.
+
+  Theorem C05_cbc_cs1_enc_source_inplace iv (blocks : list (list N)) (tail : list N) :
+    cipher_wf C -> length iv = bs -> all_len bs blocks -> 1 <= length blocks -> length tail < bs ->
+    exists e', run_body X (cenv iv true (concat blocks ++ tail) (concat blocks ++ tail)) cts__cbc_cs1__BlockCipherEncClosure__Closure__call = Some (e', VUnit)
+      /\ lookup "buf" e' = Some (VBuf true (concat blocks ++ tail) (cbc_cs1_spec bs (c_E C) iv blocks tail)).
+  Proof.
+    intros Cwf Hiv Hb Hn Ht.
+    destruct (tie_cts__cbc_cs1__BlockCipherEncClosure__Closure__call iv true blocks tail blocks tail) as (e' & o' & Hrun & Hbuf & Hmod); auto; try lia.
+    assert (Hm : msg_mem C (mkmem true (concat blocks ++ tail) (concat blocks ++ tail)) blocks tail).
+    { constructor; auto. split; auto. }
+    destruct (cbc_cs1_enc_ok C Cwf iv _ blocks tail Hiv Hm) as (m' & E1 & E2).
+    fold bs in E2. rewrite Hmod in E1. injection E1 as <-. cbn [m_out] in E2. subst o'.
+    exists e'. split; [exact Hrun | exact Hbuf].
+  Qed.
+End Cs1.
+
+(* ---- C01 over the translated source: the translated CbcCs1 encryption closure run in place on a message, then the
+   translated decryption closure run in place (same IV) on what it left, returns the message (D inverse to E on blocks).
+   Composition of the two closure ties with Cts_dec_proofs.cts_roundtrip_composed (= Props/C01, C01_cts). *)
+Section CbcCs1RoundTrip.
+  Variable C : cipher.
+  Let bs := c_bs C.
+  Hypothesis Cwf : cipher_wf C.
+  Hypothesis DE : DE_id C.
+  Let Xe := bctx C [("cbc_enc", FSem (cbc_enc_sem C)); ("xor", FSem xor_sem)]
+                   [("into_chunks::BS", VNat bs); ("Block::<B>::default()", VBlk (zeros bs)); ("B::BlockSize::USIZE", VNat bs)].
+  Let Xd := bctx C [("cbc_dec", FSem (cbc_dec_sem C)); ("xor", FSem xor_sem)]
+                   [("into_chunks::BS", VNat bs); ("Block::<B>::default()", VBlk (zeros bs)); ("B::BlockSize::USIZE", VNat bs); ("try_into::LEN", VNat bs)].
+
+  Theorem C01_cbc_cs1_source_inplace (iv : list N) (blocks : list (list N)) (tail : list N) :
+    length iv = bs -> all_len bs blocks -> 1 <= length blocks -> length tail < bs ->
+    let M := concat blocks ++ tail in
+    exists e1 c e2,
+      run_body Xe (cenv iv true M M) cts__cbc_cs1__BlockCipherEncClosure__Closure__call = Some (e1, VUnit)
+      /\ lookup "buf" e1 = Some (VBuf true M c) /\ length c = length M
+      /\ run_body Xd (ClosureLib.cenv false iv true c c) cts__cbc_cs1__BlockCipherDecClosure__Closure__call = Some (e2, VUnit)
+      /\ lookup "buf" e2 = Some (VBuf true c M).
+  Proof.
+    intros Hiv Hb Hn Ht M.
+    destruct Cwf as (bs_pos & Hw & E_len & D_len).
+    destruct (tie_cts__cbc_cs1__BlockCipherEncClosure__Closure__call C bs_pos E_len iv true blocks tail blocks tail) as (e1 & c & Hrun1 & Hbuf1 & Hmod1); auto.
+    fold M in Hrun1, Hbuf1, Hmod1.
+    assert (Hm : msg_mem C (mkmem true M M) blocks tail) by (constructor; auto; split; auto).
+    assert (Hwf2 : mwf (mkmem true c c)) by (split; auto).
+    destruct (cts_roundtrip_composed C (conj bs_pos (conj Hw (conj E_len D_len))) DE CbcCs1 iv (mkmem true M M) blocks tail (mkmem true c c)
+                Hiv Hm Hwf2) as (c0 & Ec0 & Hlen & Hdec).
+    cbn [cts_run] in Ec0, Hdec. rewrite Hmod1 in Ec0. injection Ec0 as <-. unfold mlen in Hlen. cbn [m_out] in Hlen.
+    destruct (Hdec eq_refl) as (p & Ep & Hp).
+    destruct (chunks_decompose bs c bs_pos) as (bl & t & Ec & Hbl & Htl & _).
+    assert (Hbn : 1 <= length bl).
+    { assert (HL : length c = length bl * bs + length t) by (rewrite Ec at 1; rewrite app_length, (all_len_concat_length bs) by auto; reflexivity).
+      assert (HM : length M = length blocks * bs + length tail) by (unfold M; rewrite app_length, (all_len_concat_length bs) by auto; reflexivity).
+      destruct bl; [cbn [length] in HL; fold bs in Htl; nia | cbn [length]; lia]. }
+    destruct (tie_cts__cbc_cs1__BlockCipherDecClosure__Closure__call C (conj bs_pos (conj Hw (conj E_len D_len))) iv true bl t bl t) as (e2 & o2 & Hrun2 & Hbuf2 & Hmod2); auto.
+    rewrite <- Ec in Hrun2, Hbuf2, Hmod2. rewrite Hmod2 in Ep. injection Ep as <-. cbn [m_out] in Hp. subst o2.
+    exists e1, c, e2. repeat split; auto.
+  Qed.
+End CbcCs1RoundTrip.
